@@ -31,6 +31,9 @@ struct seqx_spec {
      * ops it reports disabled (apply must then never return SEQX_DISABLED
      * after having touched the object) */
     bool (*enabled)(void *st, int op);
+    /* optional: oracle sweep run once on every new distinct state (its outcome must be a function of the
+     * canonical state); must leave the state as it found it. SEQX_VIOL is reported against the history. */
+    int (*sweep)(void *st);
 };
 
 static char seqx_sig[256];
@@ -260,6 +263,8 @@ static int seqx_explore(const struct seqx_spec *spec, int maxdepth,
                         (struct seqx_node){(int)ni, op, depth};
                     if (spec->nontrivial == NULL || spec->nontrivial(st))
                         r.nontrivial++;
+                    if (spec->sweep && spec->sweep(st) == SEQX_VIOL)
+                        seqx_report_viol(&r, hist, n + 1);
                     if (nsamples < 3 && depth == maxdepth) {
                         seqx_hist_str(spec, hist, n + 1, hs, sizeof(hs), true);
                         v_sample("%s", hs);
